@@ -191,6 +191,13 @@ func ElemStores(a *ssa.Alloc) map[int64][]ssa.Value {
 // BoundMethod recognises a bound-method closure "x.M" used as a function
 // value; it returns the full name of the method and the receiver value.
 func BoundMethod(v ssa.Value) (string, ssa.Value) {
+	for { // a method value converted to a named function type is still that method value
+		ct, isCT := v.(*ssa.ChangeType)
+		if !isCT {
+			break
+		}
+		v = ct.X
+	}
 	mc, ok := v.(*ssa.MakeClosure)
 	if !ok || len(mc.Bindings) != 1 {
 		return "", nil
